@@ -30,6 +30,8 @@ StmtUses(s) ==
   CASE s.k = "assign" -> {s.t.obj} \cup ExprNames(s.e) \cup PathNames(s.t.path)
     [] s.k = "bind" -> ExprNames(s.e)
     [] s.k = "local" -> {s.n} \cup ExprNames(s.init)
+    [] s.k = "ucall" -> ExprsNames(s.args, 1) \cup StmtsUses(s.body, 1)
+    [] s.k = "return" -> IF s.has = 1 THEN ExprNames(s.e) ELSE {}
     [] s.k = "match" -> ExprNames(s.e) \cup StmtsUses(s.default, 1) \cup UNION {StmtsUses(s.cases[i].body, 1) : i \in 1..Len(s.cases)}
     [] s.k = "forchain" -> (IF s.mode = "bind" THEN {} ELSE {s.t.obj}) \cup ExprsNames(s.conds, 1) \cup ExprsNames(s.bes, 1) \cup (IF s.haselse = 1 THEN ExprNames(s.elseval) ELSE {})
     [] s.k = "if" -> (IF s.c.k \in {"true", "false"} THEN {} ELSE ExprNames(s.c)) \cup StmtsUses(s.th, 1) \cup StmtsUses(s.el, 1)
@@ -92,6 +94,13 @@ TmpStmt(s, objs, defined, bound) ==
          IN IF s.mode = "bind"
             THEN [def |-> defined \ {s.t.obj}, bound |-> bound \cup {s.t.obj}, ok |-> TmpUse(uses, objs, defined) /\ s.t.obj \notin objs]
             ELSE [def |-> defined, bound |-> bound, ok |-> TmpUse(uses, objs, defined)]
+    [] s.k = "ucall" ->
+         \* the callee is traced in place: its intermediates live in the caller's state; the result is an intermediate written
+         \* on every return path (the generator's callees with a result return on every path)
+         LET r == TmpStmts(s.body, 1, objs, defined, bound) IN
+         [def |-> IF s.ret = "" THEN r.def ELSE r.def \cup {s.ret}, bound |-> IF s.ret = "" THEN r.bound ELSE r.bound \cup {s.ret},
+          ok |-> r.ok /\ TmpUse(ExprsNames(s.args, 1), objs, defined) /\ (s.ret = "" \/ (s.ret \notin r.bound /\ s.ret \notin objs))]
+    [] s.k = "return" -> [def |-> defined, bound |-> bound, ok |-> s.has = 0 \/ TmpUse(ExprNames(s.e), objs, defined)]
     [] s.k = "await" -> [def |-> {}, bound |-> bound, ok |-> TRUE]   \* the condition is evaluated in the polling state
     [] s.k = "waitfor" -> [def |-> {}, bound |-> bound, ok |-> TmpUse(IF s.n.k = "int" THEN {} ELSE ExprNames(s.n), objs, defined)]
     [] s.k = "while" ->
@@ -111,6 +120,8 @@ CondsOk(ss, i, objs, defined) ==
            here == CASE s.k = "await" -> TmpUse(CondNames(s.c), objs, {})
                      [] s.k = "while" -> TmpUse(CondNames(s.c), objs, {}) /\ CondsOk(s.body, 1, objs, {})
                      [] s.k = "if" -> CondsOk(s.th, 1, objs, defined) /\ CondsOk(s.el, 1, objs, defined)
+                     [] s.k = "match" -> CondsOk(s.default, 1, objs, defined) /\ \A j \in 1..Len(s.cases) : CondsOk(s.cases[j].body, 1, objs, defined)
+                     [] s.k = "ucall" -> CondsOk(s.body, 1, objs, defined)
                      [] OTHER -> TRUE
        IN here /\ CondsOk(ss, i + 1, objs, defined)
 
